@@ -275,6 +275,11 @@ func (m *Machine) Apply(a *Action) (Outcome, error) {
 		if err != nil {
 			return Outcome{}, err
 		}
+		for _, inv := range m.Inv {
+			if ps, ok := inv.(preSlasher); ok {
+				ps.PreSlash(m, a, infrH)
+			}
+		}
 		cons := m.Keys[a.Key].ConsAddr()
 		ctx := c.Ctx()
 		var pre []byte
@@ -341,6 +346,12 @@ func (m *Machine) Apply(a *Action) (Outcome, error) {
 		return m.cosmos(m.W.Operators[a.Op], msg)
 	}
 	return Outcome{}, fmt.Errorf("unknown action %q", a.Kind)
+}
+
+// preSlasher is implemented by invariants that snapshot the state at BeginBlock position right
+// before a slash is executed.
+type preSlasher interface {
+	PreSlash(m *Machine, a *Action, infrH int64)
 }
 
 // midBlocker is implemented by invariants that want to look at the committed state between two
